@@ -580,3 +580,69 @@ Proof.
   destruct (ev_wakeup_invariant _ _ _ _ _ _ _ _ _ _ Hc Hr Hu) as [H|H]; [exact H|].
   destruct Ha as [Ha _]. rewrite Ha in H. contradiction.
 Qed.
+
+(* the bad window is ENTERED only by a notifier's late Pending -> Notified CAS while the listener
+   already sleeps on the empty trigger (the token that notifier posted has been consumed) *)
+Theorem ev_bad_window_entry k c tc po pd lp np ff cf t cf' es :
+  0 < c -> reachable step (init k c tc po pd lp np ff) cf ->
+  step1 step t cf = Some (cf', es) -> ~ bad_window cf -> bad_window cf' ->
+  asleep cf /\ st (fst cf) = Pending /\ t <> O /\ exists i, at_pc (snd cf t) = NCasPN i.
+Proof.
+  intros Hc Hr Hs Hnb Hb. pose proof (inv_reach _ _ _ _ _ _ _ _ _ Hc Hr) as (_ & _ & HL).
+  destruct cf as [g ls]. cbn [fst snd] in *. unfold step1 in Hs. cbn [fst snd] in Hs.
+  destruct (step t g (ls t)) as [[[g' l'] e']|] eqn:Est; [|discriminate].
+  inversion Hs; subst cf' es; clear Hs.
+  destruct Hb as [[Hpc' Htr'] Hst']. unfold listener_pc in *. cbn [fst snd] in *.
+  specialize (HL t). destruct HL as [Hrole _]. unfold step in Est.
+  destruct t as [|u].
+  - (* the listener itself cannot enter the window: it reaches LWait only after seeing a state other than Notified *)
+    exfalso. rewrite upd_l_same in Hpc'.
+    destruct (at_pc (ls O)) as [|j|j cur|j|j|j|m| | |w tot|w tot] eqn:Epc; cbn [role] in Hrole; try congruence.
+    + destruct (prog (ls O)) as [|[j|m] p]; [discriminate| |].
+      * inversion Est; subst. discriminate.
+      * destruct (st g) eqn:Es; inversion Est; subst; fields; try discriminate; congruence.
+    + destruct (N.eqb (trig g) 0); [destruct m|]; inversion Est; subst; discriminate.
+    + inversion Est; subst; discriminate.
+    + inversion Est; subst; discriminate.
+    + inversion Est; subst; discriminate.
+    + destruct (N.leb (nwords (kind g) (cap g)) (w + 1)); inversion Est; subst; discriminate.
+  - rewrite upd_l_other in Hpc' by discriminate.
+    assert (Hnb' : ~ (trig g = 0 /\ st g = Notified)).
+    { intros [A B]. apply Hnb. split; [split|]; auto. }
+    destruct (at_pc (ls (S u))) as [|j|j cur|j|j|j|m| | |w tot|w tot] eqn:Epc; cbn [role] in Hrole; try discriminate.
+    + exfalso. destruct (prog (ls (S u))) as [|[j|m] p]; [discriminate| |].
+      * destruct (N.leb (cap g) j); inversion Est; subst; auto.
+      * inversion Est; subst; auto.
+    + exfalso. destruct (kind g).
+      * destruct (N.testbit (words g (j / 8)) (bitno j)); inversion Est; subst; fields; auto.
+      * inversion Est; subst; fields; auto.
+    + exfalso. destruct (N.eqb (words g (j / 8)) cur); [|destruct (N.testbit (words g (j / 8)) (bitno j))];
+        inversion Est; subst; fields; auto.
+    + exfalso. destruct (st g) eqn:Es; inversion Est; subst; fields; try discriminate; try congruence; apply Hnb'; split; congruence.
+    + exfalso. destruct (trig_full g); [destruct (ffull (ls (S u)))|]; inversion Est; subst; fields; auto. lia.
+    + destruct (st g) eqn:Es; inversion Est; subst; fields; try discriminate.
+      * repeat split; auto; try discriminate. eexists; reflexivity.
+      * exfalso. apply Hnb'. split; congruence.
+Qed.
+
+(* a thread cannot move only when it is finished or in a blocking wait on an empty trigger:
+   try_wait and timed_wait never sleep forever, every started notify runs to completion *)
+Theorem ev_blocked_only_in_blocking_wait t g l :
+  step t g l = None -> (at_pc l = PIdle /\ prog l = []) \/ (at_pc l = LWait WBlock /\ trig g = 0).
+Proof.
+  unfold step. intros H.
+  destruct (at_pc l) as [|j|j cur|j|j|j|m| | |w tot|w tot] eqn:Epc.
+  - left. split; auto. destruct (prog l) as [|[j|m] p]; auto; exfalso.
+    + destruct t; [discriminate|]. destruct (N.leb (cap g) j); discriminate.
+    + destruct t; [|discriminate]. destruct (st g); discriminate.
+  - exfalso. destruct (kind g); [destruct (N.testbit (words g (j / 8)) (bitno j))|]; discriminate.
+  - exfalso. destruct (N.eqb (words g (j / 8)) cur); [|destruct (N.testbit (words g (j / 8)) (bitno j))]; discriminate.
+  - exfalso. destruct (st g); discriminate.
+  - exfalso. destruct (trig_full g); [destruct (ffull l)|]; discriminate.
+  - exfalso. destruct (st g); discriminate.
+  - right. destruct (N.eqb_spec (trig g) 0) as [E|E]; [|discriminate]. destruct m; try discriminate. auto.
+  - discriminate.
+  - discriminate.
+  - discriminate.
+  - exfalso. destruct (N.leb (nwords (kind g) (cap g)) (w + 1)); discriminate.
+Qed.
